@@ -254,6 +254,9 @@ where
     A: Allocator,
 {
     pub fn with_capacity(capacity: usize, allocator: A) -> Result<Self, MapError> {
+        // probing masks the index with `capacity - 1`: the capacity has to be a power of two
+        // (and at least 2), whatever the caller asked for
+        let capacity = capacity.max(2).next_power_of_two();
         unsafe {
             let (keys, values) = Self::alloc_storage(&allocator, capacity)?;
             let res = Self {
